@@ -235,7 +235,9 @@ type ccStream struct {
 }
 
 type ccOp struct {
-	ticks int // > 0: that many ticks
+	ticks int    // > 0: that many ticks, each one atomic
+	inc   bool   // first half of a tick of T: the clock moves; on a collector tick every key without its own step is judged
+	gck   string // second half of a collector tick of T: the stream of this key is judged
 	s     *ccStream
 	id    int
 	seq   int // slot of the result (adds only)
@@ -243,6 +245,12 @@ type ccOp struct {
 }
 
 func (o ccOp) String() string {
+	if o.inc {
+		return "T:tick"
+	}
+	if o.gck != "" {
+		return "T:collect " + o.gck
+	}
 	if o.ticks > 0 {
 		return fmt.Sprintf("%s:tick x%d", o.who, o.ticks)
 	}
@@ -259,8 +267,9 @@ type ccCase struct {
 	a         ccOp
 	bs        []ccOp
 	bKind     string
-	ts        []ccOp // single ticks
-	bFirst    bool   // B is launched before T
+	ts        []ccOp   // single ticks
+	tsteps    [][]ccOp // the steps of the ticks of T (one list per order of the keys judged separately)
+	bFirst    bool     // B is launched before T
 	post      []ccOp
 	nAdds     int
 	dryOps    []string
@@ -300,11 +309,19 @@ type ccModel struct {
 	tracked map[string]*ccTracked
 	fin     map[string]*ccStream
 	rets    []byte // '?' not executed, 'T', 'F'
+	split   map[string]bool
+	gcNow   bool
 }
 
 func newCCModel(c *ccCase) *ccModel {
-	return &ccModel{gc: c.gcTick, timeout: c.timeout, tracked: map[string]*ccTracked{}, fin: map[string]*ccStream{},
-		rets: bytes.Repeat([]byte{'?'}, c.nAdds)}
+	m := &ccModel{gc: c.gcTick, timeout: c.timeout, tracked: map[string]*ccTracked{}, fin: map[string]*ccStream{},
+		rets: bytes.Repeat([]byte{'?'}, c.nAdds), split: map[string]bool{}}
+	for _, o := range c.tsteps[0] {
+		if o.gck != "" {
+			m.split[o.gck] = true
+		}
+	}
+	return m
 }
 
 func (m *ccModel) add(s *ccStream, id int) bool {
@@ -336,6 +353,26 @@ func (m *ccModel) add(s *ccStream, id int) bool {
 }
 
 func (m *ccModel) apply(o ccOp) {
+	if o.inc {
+		// Tick is not one atomic step: the clock moves at once, the collector then takes
+		// the lock of every tracked snapshot in turn
+		m.tick++
+		m.gcNow = m.tick%m.gc == 0
+		if m.gcNow {
+			for k, tr := range m.tracked {
+				if !m.split[k] && m.tick-tr.tick >= m.timeout {
+					delete(m.tracked, k)
+				}
+			}
+		}
+		return
+	}
+	if o.gck != "" {
+		if tr := m.tracked[o.gck]; m.gcNow && tr != nil && m.tick-tr.tick >= m.timeout {
+			delete(m.tracked, o.gck)
+		}
+		return
+	}
 	if o.ticks > 0 {
 		for i := 0; i < o.ticks; i++ {
 			m.tick++
@@ -377,11 +414,11 @@ func (m *ccModel) outcome() (string, map[string]uint64) {
 // the adds of B in order, the ticks of T in order; aFirst: A returned before the
 // others were started; bBeforeT / tBeforeB: that thread had returned before the
 // other one was started.
-func ccOrders(c *ccCase, aFirst, bBeforeT, tBeforeB bool, visit func(order []ccOp)) {
-	order := make([]ccOp, 0, 1+len(c.bs)+len(c.ts))
+func ccOrders(c *ccCase, ts []ccOp, aFirst, bBeforeT, tBeforeB bool, visit func(order []ccOp)) {
+	order := make([]ccOp, 0, 1+len(c.bs)+len(ts))
 	var rec func(aDone bool, ib, it int)
 	rec = func(aDone bool, ib, it int) {
-		if aDone && ib == len(c.bs) && it == len(c.ts) {
+		if aDone && ib == len(c.bs) && it == len(ts) {
 			visit(order)
 			return
 		}
@@ -393,13 +430,13 @@ func ccOrders(c *ccCase, aFirst, bBeforeT, tBeforeB bool, visit func(order []ccO
 				return
 			}
 		}
-		if ib < len(c.bs) && !(tBeforeB && it < len(c.ts)) {
+		if ib < len(c.bs) && !(tBeforeB && it < len(ts)) {
 			order = append(order, c.bs[ib])
 			rec(aDone, ib+1, it)
 			order = order[:len(order)-1]
 		}
-		if it < len(c.ts) && !(bBeforeT && ib < len(c.bs)) {
-			order = append(order, c.ts[it])
+		if it < len(ts) && !(bBeforeT && ib < len(c.bs)) {
+			order = append(order, ts[it])
 			rec(aDone, ib, it+1)
 			order = order[:len(order)-1]
 		}
@@ -435,7 +472,7 @@ func ccGenStream(t *rapid.T, c *ccCase, sfs vfs.IFS, n int, role string, mode st
 	s.onDisk = rapid.Uint64Range(0, 3).Draw(t, lbl+"ondisk")
 	s.membership = vfGenMembership(t, lbl)
 	p := snapio.Payload{Kind: rapid.SampledFrom([]int{0, 1, 2, 2}).Draw(t, lbl+"paykind"), Seed: rapid.Uint64().Draw(t, lbl+"seed")}
-	cs := int(c.chunkSize)
+	cs := int(snapshotChunkSize)
 	compressed := rapid.IntRange(0, 3).Draw(t, lbl+"compressed") == 0
 	var extSizes []int
 	if mode == "stream" {
@@ -502,7 +539,7 @@ func ccGenCase(t *rapid.T, sfs vfs.IFS) *ccCase {
 	c.gcTick = rapid.Uint64Range(1, 3).Draw(t, "gctick")
 	c.timeout = rapid.SampledFrom([]uint64{1, 2, 2, 3, 3, 4}).Draw(t, "timeout")
 	mode := rapid.SampledFrom([]string{"stream", "stream", "file", "file"}).Draw(t, "mode")
-	blocks := rapid.SampledFrom([]int{1, 1, 1, 1, 1, 1, 1, 1, 1, 1, 1, 1, 1, 1, 1, 1, 1, 1, 2, 2, 2, 3, 3, 4}).Draw(t, "blocks")
+	blocks := rapid.SampledFrom([]int{1, 1, 1, 1, 1, 1, 1, 1, 1, 1, 1, 1, 1, 1, 1, 1, 1, 1, 1, 1, 1, 1, 1, 1, 1, 1, 1, 1, 2, 2, 3, 4}).Draw(t, "blocks")
 	if blocks > 1 {
 		c.chunkSize = rapid.SampledFrom([]uint64{1 << 20, 2 << 20, 3 << 19}).Draw(t, "chunksize")
 	} else {
@@ -606,6 +643,33 @@ func ccGenCase(t *rapid.T, sfs vfs.IFS) *ccCase {
 	}
 	c.post = append(c.post, ccOp{ticks: int(c.timeout + c.gcTick + 1), who: "post"})
 	c.nAdds = seq
+	// the steps of T: the keys A and B touch are judged by the collector in steps of their own
+	var keys []string
+	for _, o := range append([]ccOp{c.a}, c.bs...) {
+		if len(keys) == 0 || (len(keys) == 1 && keys[0] != o.s.k) {
+			keys = append(keys, o.s.k)
+		}
+	}
+	now := uint64(0)
+	for _, o := range c.pre {
+		now += uint64(o.ticks)
+	}
+	korders := [][]string{keys}
+	if len(keys) == 2 {
+		korders = append(korders, []string{keys[1], keys[0]})
+	}
+	for _, ko := range korders {
+		var steps []ccOp
+		for i := range c.ts {
+			steps = append(steps, ccOp{inc: true, who: "T"})
+			if (now+uint64(i)+1)%c.gcTick == 0 {
+				for _, k := range ko {
+					steps = append(steps, ccOp{gck: k, who: "T"})
+				}
+			}
+		}
+		c.tsteps = append(c.tsteps, steps)
+	}
 	return c
 }
 
@@ -992,47 +1056,49 @@ func ccProp(st *vfhelp.Stats) func(t *rapid.T) {
 		var fins []map[string]uint64
 		norders, matched := 0, 0
 		aPos := map[string]bool{}
-		ccOrders(c, x.aFirst, x.bBeforeT, x.tBeforeB, func(order []ccOp) {
-			norders++
-			m := newCCModel(c)
-			for _, o := range c.pre {
-				m.apply(o)
-			}
-			for _, o := range order {
-				m.apply(o)
-			}
-			for _, o := range c.post {
-				m.apply(o)
-			}
-			oc, fin := m.outcome()
-			if _, ok := outcomes[oc]; !ok {
-				outcomes[oc] = ccOps(order)
-				fins = append(fins, fin)
-			}
-			if oc == gotCanon {
-				matched++
-				// where A stands relative to the adds of B
-				for i, o := range order {
-					if o.who == "A" {
-						nb := 0
-						for _, o2 := range order[:i] {
-							if o2.who == "B" {
-								nb++
+		for _, tsteps := range c.tsteps {
+			ccOrders(c, tsteps, x.aFirst, x.bBeforeT, x.tBeforeB, func(order []ccOp) {
+				norders++
+				m := newCCModel(c)
+				for _, o := range c.pre {
+					m.apply(o)
+				}
+				for _, o := range order {
+					m.apply(o)
+				}
+				for _, o := range c.post {
+					m.apply(o)
+				}
+				oc, fin := m.outcome()
+				if _, ok := outcomes[oc]; !ok {
+					outcomes[oc] = ccOps(order)
+					fins = append(fins, fin)
+				}
+				if oc == gotCanon {
+					matched++
+					// where A stands relative to the adds of B
+					for i, o := range order {
+						if o.who == "A" {
+							nb := 0
+							for _, o2 := range order[:i] {
+								if o2.who == "B" {
+									nb++
+								}
 							}
-						}
-						switch {
-						case len(c.bs) == 0:
-						case nb == 0:
-							aPos["A<B"] = true
-						case nb == len(c.bs):
-							aPos["B<A"] = true
-						default:
-							aPos["B1<A<B2"] = true
+							switch {
+							case len(c.bs) == 0:
+							case nb == 0:
+								aPos["A<B"] = true
+							case nb == len(c.bs):
+								aPos["B<A"] = true
+							default:
+								aPos["B1<A<B2"] = true
+							}
 						}
 					}
 				}
-			}
-		})
+			})
+		}
 		if matched == 0 {
 			var all []string
 			for oc, order := range outcomes {
